@@ -37,7 +37,8 @@ type C13Plan struct {
 	Inputs     [][]byte  `json:"inputs"`
 	Tasks      [][]C13Op `json:"tasks"`
 	Schedule   []int     `json:"schedule"`
-	After      string    `json:"after"` // prng | first | pct : choices once Schedule is exhausted
+	After      string    `json:"after"`               // prng | first | pct | hold : choices once Schedule is exhausted
+	HoldKind   string    `json:"hold_kind,omitempty"` // hold: cb | sync | write | read | map
 	PCTDepth   int       `json:"pct_depth,omitempty"`
 	Stickiness float64   `json:"stickiness"`
 	MapOrder   MapOrder  `json:"map_order"`
@@ -82,13 +83,21 @@ func genC13(seed uint64, idx int, tier string) interface{} {
 	if tier == "thorough" && tr.Bool(0.2) {
 		ntasks = tr.Range(6, 10)
 	}
+	crowd := tr.Bool(0.04) // many callers at once, one short operation each: limits that count callers in flight
+	if crowd {
+		ntasks = tr.Range(9, 13)
+	}
 	faultTask := -1
 	if tr.Bool(0.25) {
 		faultTask = tr.Intn(ntasks)
 	}
 	for t := 0; t < ntasks; t++ {
 		var ops []C13Op
-		for o, n := 0, tr.Range(1, 4); o < n; o++ {
+		nops := tr.Range(1, 4)
+		if crowd {
+			nops = 1
+		}
+		for o, n := 0, nops; o < n; o++ {
 			op := C13Op{Input: tr.Intn(len(pl.Inputs))}
 			in := pl.Inputs[op.Input]
 			switch tr.Intn(10) {
@@ -117,12 +126,32 @@ func genC13(seed uint64, idx int, tier string) interface{} {
 		pl.Tasks = append(pl.Tasks, ops)
 	}
 	pl.Stickiness = []float64{0, 0.5, 0.9}[r.Intn(3)]
-	if r.Bool(0.3) {
+	switch {
+	case r.Bool(0.3):
 		pl.After = "pct"
 		pl.PCTDepth = r.Range(2, 4)
+	case r.Bool(0.2) || crowd && r.Bool(0.7):
+		pl.After = "hold"
+		pl.HoldKind = r.Pick([]string{"cb", "cb", "sync", "write", "map", "read"})
 	}
 	pl.MapOrder = MapOrder{Mode: []string{"canonical", "reversed", "random", "random"}[r.Intn(4)], Seed: r.U64()}
 	return pl
+}
+
+func holdKindOf(k string) uint32 {
+	switch k {
+	case "cb":
+		return evCallback
+	case "sync":
+		return evSync
+	case "write":
+		return evWrite
+	case "read":
+		return evRead
+	case "map":
+		return evMap
+	}
+	return 0
 }
 
 // genChunksCoarse bounds the number of Read calls (each is a scheduling point).
@@ -501,7 +530,7 @@ func runC13inner(planJSON []byte, canary bool) (*RunResult, error) {
 			siteVisits: map[string]int{}, sitePerms: map[string]map[string]bool{}, fixture: pl.Fixture}
 	}
 	sc := &scheduler{bp: bp, n: n, schedule: pl.Schedule, after: pl.After, stick: pl.Stickiness,
-		rng: NewRNG(Mix(pl.RunSeed, 0x5c4ed)), stepCap: 6000, pointCount: map[uint32]int{}, poolFlush: pl.PoolFlush, blockMs: c13BlockMs, pctDepth: pl.PCTDepth, pctHorizon: 150}
+		rng: NewRNG(Mix(pl.RunSeed, 0x5c4ed)), stepCap: 6000, pointCount: map[uint32]int{}, poolFlush: pl.PoolFlush, blockMs: c13BlockMs, pctDepth: pl.PCTDepth, pctHorizon: 150, holdKind: holdKindOf(pl.HoldKind)}
 	if !canary {
 		newRaceReports() // anything older belongs to an earlier run
 	}
@@ -611,6 +640,8 @@ func runC13inner(planJSON []byte, canary bool) (*RunResult, error) {
 	res.count("map_order."+pl.MapOrder.Mode, 1)
 	if pl.After == "pct" {
 		res.count("sched_mode.pct", 1)
+	} else if pl.After == "hold" {
+		res.count("sched_mode.hold_"+pl.HoldKind, 1)
 	} else {
 		res.count(fmt.Sprintf("sched_mode.random_stick_%.1f", pl.Stickiness), 1)
 	}
